@@ -34,7 +34,11 @@ func (x *Exec) chanSend(st *State, c ChanV, v Value) {
 		panic(goPanic{"send on closed channel"})
 	}
 	// unbuffered or full channels: we let the send complete (the receiver is
-	// another goroutine that the harness models by draining the buffer)
+	// another goroutine that the harness models by draining the buffer) unless
+	// the harness declared that nobody receives (zz.NoReceiver)
+	if co.noRecv && len(co.buf) >= co.cap {
+		panic(pathEnd{"send blocks forever: no receiver and no buffer space"})
+	}
 	n := *co
 	n.buf = append(append([]Value(nil), co.buf...), v)
 	n.sends++
@@ -81,7 +85,9 @@ func (x *Exec) execSelect(st *State, fr *Frame, i *ssa.Select) {
 			continue
 		}
 		if s.Dir == types.SendOnly {
-			ready = append(ready, k)
+			if !(co.noRecv && len(co.buf) >= co.cap) {
+				ready = append(ready, k)
+			}
 		} else if len(co.buf) > 0 || co.closed {
 			ready = append(ready, k)
 		}
